@@ -296,17 +296,119 @@ pub fn run_c02(tier: Tier, filter: Filter, depth_override: Option<usize>) -> i32
         .filter(|sc| filter.schema.is_none_or(|i| i == sc.idx))
         .map(|sc| c02_schema(sc, &filter, depth, cap))
         .reduce(Stats::default, Stats::merge);
+    let st = if filter.schema.is_none() { Stats::merge(st, c02_typed_decimals()) } else { st };
     let rep = Report {
         id: "C02".into(),
         tier,
         level: "model_checking",
-        rule: "lib->ref: every (schema,value) of the C01 universe is encoded by the library and decoded by the independent refbin decoder (byte-equal to refbin's canonical layout when no multi-entry map); ref->lib: refbin emits every spec-legal layout (block partitions x signed counts with byte sizes x map entry orders) and the library decodes each; a class is (schema shape path, layout length, layout ordinal bucket)".into(),
+        rule: "lib->ref: every (schema,value) of the C01 universe is encoded by the library and decoded by the independent refbin decoder (byte-equal to refbin's canonical layout when no multi-entry map); ref->lib: refbin emits every spec-legal layout (block partitions x signed counts with byte sizes x map entry orders) and the library decodes each (the schema-aware deserializer must frame every non-canonical layout the same way); typed: every apache_avro::Decimal built from a byte string of length 1..=3 over {00,01,7f,80,ff} through the serde writer under decimal on fixed(1,2,3,4,8) / bytes, bare and as a record field - a refusal is no verdict, produced bytes must read back independently as the number; a class is (schema shape path, layout length, layout ordinal bucket)".into(),
         bounds: json!({"schema_depth": depth, "schemas": corpus.len(), "layouts_cap_per_value": cap}),
         assumptions: vec!["refbin is an independent implementation written from the specification text; its self-test against the specification's literal examples runs first".into()],
         exhaustive: filter.schema.is_none(),
         extra: json!({}),
     };
     ev::finish(rep, st, start)
+}
+
+#[derive(serde::Serialize)]
+struct Booking {
+    id: i32,
+    amount: apache_avro::Decimal,
+}
+
+/// The serde writer given an `apache_avro::Decimal` (which remembers the number of bytes it was built from,
+/// usually fewer than the fixed holds) under decimal schemas: it may refuse - no bytes, no verdict - but bytes
+/// it does produce must be, by the specification's layout, the number that was handed in. Every byte string
+/// of length 1..=3 over {00,01,7f,80,ff} x decimal on fixed(1,2,3,4,8) and on bytes, bare and as a record
+/// field.
+fn c02_typed_decimals() -> Stats {
+    let mut st = Stats::default();
+    let alphabet = [0x00u8, 0x01, 0x7f, 0x80, 0xff];
+    let mut inputs: Vec<Vec<u8>> = vec![];
+    for len in 1..=3usize {
+        for code in 0..alphabet.len().pow(len as u32) {
+            let mut c = code;
+            inputs.push((0..len).map(|_| { let b = alphabet[c % alphabet.len()]; c /= alphabet.len(); b }).collect());
+        }
+    }
+    let number = |b: &[u8]| -> i128 {
+        let mut n: i128 = if b[0] & 0x80 != 0 { -1 } else { 0 };
+        for x in b {
+            n = (n << 8) | *x as i128;
+        }
+        n
+    };
+    let mut order = 0xC02D_0000_0000u64;
+    for size in [0usize, 1, 2, 3, 4, 8] {
+        let dec = if size == 0 {
+            json!({"type": "bytes", "logicalType": "decimal", "precision": 20, "scale": 2})
+        } else {
+            json!({"type": "fixed", "name": "Amount", "size": size, "logicalType": "decimal", "precision": ([0, 2, 4, 6, 9, 0, 0, 0, 18][size]), "scale": 1})
+        };
+        for in_record in [false, true] {
+            let text = if in_record {
+                json!({"type": "record", "name": "Booking", "fields": [{"name": "id", "type": "int"}, {"name": "amount", "type": dec}]})
+            } else {
+                dec.clone()
+            };
+            let Ok(schema) = corpus::parse_lib(&text.to_string()) else {
+                st.outcome("schema-not-accepted");
+                continue;
+            };
+            for input in &inputs {
+                order += 1;
+                st.states += 1;
+                st.evaluations += 1;
+                st.transitions += 1;
+                let d = apache_avro::Decimal::from(input.clone());
+                let got = guarded(|| {
+                    let w = GenericDatumWriter::builder(&schema).build()?;
+                    if in_record {
+                        w.write_ser_to_vec(&Booking { id: 1, amount: d.clone() })
+                    } else {
+                        w.write_ser_to_vec(&d)
+                    }
+                });
+                let case = |what: String| json!({"schema": text, "decimal_built_from": hex(input), "number": number(input).to_string(), "observed": what});
+                let replay = json!({"clause": "typed-decimal", "schema": text, "decimal_built_from": hex(input)});
+                match got {
+                    Err(p) => {
+                        st.outcome("typed-decimal-panic");
+                        st.violate(order, "the serde writer panicked on a Decimal", case(p), replay);
+                    }
+                    Ok(Err(_)) => st.outcome("typed-decimal-refused(no bytes, no verdict)"),
+                    Ok(Ok(bytes)) => {
+                        // independent reading of the layout
+                        let mut rest: &[u8] = &bytes;
+                        let mut ok = true;
+                        if in_record {
+                            ok = rest.first() == Some(&0x02);
+                            rest = rest.get(1..).unwrap_or(&[]);
+                        }
+                        let payload: Option<&[u8]> = if !ok {
+                            None
+                        } else if size == 0 {
+                            // length as a zigzag varint (always < 64 here: one byte)
+                            rest.first().filter(|l| **l & 1 == 0 && (**l >> 1) as usize == rest.len() - 1 && rest.len() > 1).map(|_| &rest[1..])
+                        } else {
+                            (rest.len() == size).then_some(rest)
+                        };
+                        match payload {
+                            Some(p) if number(p) == number(input) => {
+                                st.outcome("typed-decimal-ok");
+                                st.class(format!("typed-decimal|{size}|{in_record}|{}", input.len()));
+                            }
+                            _ => {
+                                st.outcome("typed-decimal-wrong-bytes");
+                                st.violate(order, "the bytes the serde writer produces for a Decimal are not, by the specification's layout, the number that was written", case(hex(&bytes)), replay);
+                            }
+                        }
+                    }
+                }
+            }
+        }
+    }
+    st
 }
 
 fn c02_schema(sc: &Sc, filter: &Filter, depth: usize, cap: usize) -> Stats {
